@@ -1629,7 +1629,10 @@ def run_c08(ctx):
         ops = sc["ops"]
         execs = [i for i, o in enumerate(ops) if o.get("op") in ("exec", "fetch") and o.get("inst")]
         names = [r["name"] for o in ops if o.get("op") == "build" for r in (o.get("rules") or [])]
-        if len(execs) >= 2 and len(names) >= 2:
+        cancels = any(o.get("cancelAt") is not None or o.get("cancelAtEvent") is not None for o in ops)
+        if len(execs) >= 2 and len(names) >= 2 and not cancels:
+            # (not together with a cancellation point: a pass cut short leaves the iteration order of the remaining
+            #  entries unobserved, and the order hints of a later call on the changed instance cannot be completed)
             ops.insert(execs[-1], {"op": "remove", "inst": ops[execs[-1]]["inst"], "rule": rng.choice(names)})
             sc["id"] += "+rm"
     for i in range(0, len(scs), 1500):
